@@ -54,10 +54,7 @@ const JSON_CODEC: u64 = 0x0200;
 
 #[derive(Serialize, Deserialize)]
 #[serde(transparent)]
-#[cfg_attr(
-    feature = "rkyv",
-    derive(::rkyv::Archive, ::rkyv::Serialize, ::rkyv::Deserialize)
-)]
+#[cfg_attr(feature = "rkyv", derive(::rkyv::Archive, ::rkyv::Serialize))]
 #[cfg_attr(feature = "rkyv", archive(check_bytes))]
 #[cfg_attr(feature = "rkyv", omit_bounds)] // TODO look close, may be a misuse
 pub struct CID<T: ?Sized>(
@@ -66,6 +63,31 @@ pub struct CID<T: ?Sized>(
     #[cfg_attr(feature = "rkyv", with(::rkyv::with::Skip))]
     PhantomData<*const T>,
 );
+
+/// Returns the shared string itself if it is valid UTF-8 and a lossy copy otherwise.
+///
+/// rkyv validates the bytes of a shared pointer only for the first pointer it meets at an archive
+/// address; a later `Rc<str>` at that address with another length is taken as is, so crafted data
+/// can yield a string that is not UTF-8. Such a string must not travel further: it is replaced by a
+/// valid one, which then simply fails to match anything it is compared with.
+#[cfg(feature = "rkyv")]
+pub fn shared_str_as_valid_utf8(shared: Rc<str>) -> Rc<str> {
+    match std::str::from_utf8(shared.as_bytes()) {
+        Ok(_) => shared,
+        Err(_) => String::from_utf8_lossy(shared.as_bytes()).into_owned().into(),
+    }
+}
+
+#[cfg(feature = "rkyv")]
+impl<T: ?Sized, D> ::rkyv::Deserialize<CID<T>, D> for ArchivedCID<T>
+where
+    D: ::rkyv::Fallible + ?Sized + ::rkyv::de::SharedDeserializeRegistry,
+{
+    fn deserialize(&self, deserializer: &mut D) -> Result<CID<T>, D::Error> {
+        let cid: Rc<CidRef> = ::rkyv::Deserialize::deserialize(&self.0, deserializer)?;
+        Ok(CID(shared_str_as_valid_utf8(cid), PhantomData))
+    }
+}
 
 impl<T: ?Sized> CID<T> {
     pub fn new(cid: impl Into<Rc<CidRef>>) -> Self {
